@@ -252,6 +252,9 @@ func (e *specEnc) i32(i int32) {
 
 func (e *specEnc) listHeader(code byte, n int) {
 	if e.compact {
+		if code == 2 && e.alt != 0 && e.long() {
+			code = 1 // a list or set of bools may announce element type 1 (TRUE) as well as 2: both are conformant
+		}
 		if n < 15 && !e.long() {
 			e.buf.WriteByte(byte(n)<<4 | code)
 		} else {
@@ -434,6 +437,52 @@ func tMissingID(t *tty, b []byte, p string, want int) {
 	emit("t.missid", args, impl, fmt.Sprintf("missing %d", want))
 }
 
+// tStrict: Decoder.Decode after SetStrict(true)
+func tStrict(t *tty, b []byte, p string, expect string) {
+	if !mine() {
+		skip()
+		return
+	}
+	args := t.String() + "|" + hexs(b) + "|" + p
+	trace("t.strict", args)
+	impl := guarded(func() string {
+		y := reflect.New(t.goType())
+		d := thrift.NewDecoder(tproto(p).NewReader(bytes.NewReader(b)))
+		d.SetStrict(true)
+		if err := d.Decode(y.Interface()); err != nil {
+			return "err:" + tErrClass(err)
+		}
+		return t.fromGo(y.Elem()).canon()
+	})
+	emit("t.strict", args, impl, expect)
+}
+
+// nested strict mismatches: the narrow type expects i32 / list of i32 where the wide type wrote a string / i64
+func c08StrictNested() {
+	pairs := [][2]string{
+		{"(struct (f 1 0 (list (struct (f 1 0 i32)))))", "(struct (f 1 0 (list (struct (f 1 4 str)))))"}, // flag 4: required, so the field is on the wire even when zero
+		{"(struct (f 1 0 (list (list i32))))", "(struct (f 1 0 (list (list i64))))"},
+		{"(struct (f 1 0 (map str (struct (f 2 0 i16)))))", "(struct (f 1 0 (map str (struct (f 2 4 str)))))"},
+		{"(struct (f 1 0 (struct (f 1 0 (list (struct (f 3 0 bool)))))))", "(struct (f 1 0 (struct (f 1 0 (list (struct (f 3 4 i64)))))))"},
+		{"(struct (f 1 0 (set i32)))", "(struct (f 1 0 (set str)))"},
+	}
+	g := tgenerator()
+	for _, pr := range pairs {
+		nt, wt := ttyFromSx(parseSx(pr[0])), ttyFromSx(parseSx(pr[1]))
+		for k := 0; k < 6; k++ {
+			wv := g.value(wt, true)
+			if wv.multiEntry() || tIsZero(wt, wv) || strings.Contains(wv.canon(), "(l)") || strings.Contains(wv.canon(), "(e )") || strings.Contains(wv.canon(), "(m )") {
+				continue // the mismatching part must be on the wire
+			}
+			for _, p := range tprotos {
+				if wb, err := thrift.Marshal(tproto(p), wt.toGo(wv).Addr().Interface()); err == nil {
+					tStrict(nt, wb, p, "err:mismatch")
+				}
+			}
+		}
+	}
+}
+
 // widen returns a struct type with extra fields (ids unused by t) of assorted types, and a value of it
 // whose t-part is v: decoding its encoding into t must skip the extra fields.
 func widen(g *tgen, t *tty, v *tval) (*tty, *tval) {
@@ -520,6 +569,9 @@ func retype(g *tgen, t *tty, v *tval) (*tty, *tval, *tval) {
 	if tIsZero(et, ev) || ev.multiEntry() {
 		return nil, nil, nil
 	}
+	if bet := baseT(et); (bet.k == tList || bet.k == tSet || bet.k == tMap) && len(ev.elems)+len(ev.keys) == 0 {
+		return nil, nil, nil // an empty collection carries no items whose type could mismatch
+	}
 	rt := &tty{k: tStruct, fields: append([]tfield(nil), t.fields...)}
 	rt.fields[i] = tfield{id: f.id, required: true, t: et}
 	rv := &tval{k: tStruct, elems: append([]*tval(nil), v.elems...)}
@@ -564,6 +616,7 @@ func c04() {
 		}
 	}
 	c04Embedded()
+	c04LongLists()
 }
 
 // tDecodeAlt: every specification-conformant encoding of the same content is accepted with the same result: the
@@ -592,6 +645,13 @@ func c13() {
 			}
 			tDecodeAlt(t, v, 1)
 			tDecodeAlt(t, v, 2+rnd()>>1)
+			if j < 2 {
+				// an Encoder first used on ANOTHER protocol's Writer and then Reset writes the bytes of a fresh one
+				// (the protocol features are re-read from the new Writer)
+				for _, p := range tprotos {
+					tReset(t, v, p)
+				}
+			}
 		}
 	}
 }
@@ -636,6 +696,16 @@ func c08() {
 					}
 				}
 			}
+			// strict mode (Decoder.SetStrict): a wrong wire type anywhere -- in a field, or in the items of a list of
+			// structs / list of lists -- is a TypeMismatch; without it the same bytes decode with the part skipped
+			for k := 0; k < 2; k++ {
+				if rt, rv, _ := retype(g, t, v); rt != nil {
+					if rb, err := thrift.Marshal(tproto(p), rt.toGo(rv).Addr().Interface()); err == nil {
+						tStrict(t, rb, p, "err:mismatch")
+					}
+				}
+			}
+			tStrict(t, b, p, v.canon())
 			// a missing required field is reported
 			for i, f := range t.fields {
 				if f.required {
@@ -667,6 +737,7 @@ func c08() {
 			tDecode(t, rndBytes(16), p)
 		}
 	}
+	c08StrictNested()
 	_ = fmt.Sprint
 }
 
